@@ -718,7 +718,82 @@ def check_C19(tier, seed, replay):
         res.add(p_tracing("C19", c))
     res.coverage["long_inputs_real_only"] = len(long_cases)
     monitor(res, "C19", "nesting", cases + long_cases, tier, "NestingMonitor", "unbalanced tracer callbacks or a result changed by tracing")
+    cli_trace_inert(res, tier, seed, replay)
     return res
+
+
+def cli_trace_inert(res, tier, seed, replay):
+    """the compiler's own front end (the bootstrapped parser of grammar.ebnf: the largest grammar there is, deeply
+    nested inputs) traced through `peginator-cli --trace`: everything from the header line on, the exit status
+    and the error message must be those of the untraced run"""
+    import random
+    from concurrent.futures import ThreadPoolExecutor
+    cli = cli_bin()
+    d = vlib.famdir("clitrace", tier)
+    os.makedirs(d, exist_ok=True)
+    texts = []
+    for root, dn, fn in os.walk(vlib.REPO):
+        dn[:] = [x for x in dn if x not in ("target", ".git")]
+        for f_ in sorted(fn):
+            if f_.endswith(".ebnf"):
+                texts.append((os.path.relpath(os.path.join(root, f_), vlib.REPO).replace("/", "_"), open(os.path.join(root, f_), newline="").read()))
+    texts.sort()
+    rnd = random.Random(seed * 977 + 19)
+    base = list(texts)
+    for i in range(12 if tier == "quick" else 120):        # texts that are rejected, at varying depth
+        nm, t = rnd.choice(base)
+        cut = rnd.randint(0, len(t))
+        texts.append(("cut%03d_%s" % (i, nm), t[:cut] + rnd.choice(["", "(", "@", "'", " ;", "\u00e9"]) + (t[cut + rnd.randint(0, 3):] if rnd.random() < 0.5 else "")))
+    for n in (70, 200):
+        texts.append(("nested_%d" % n, "@export\nS = " + "(" * n + "'a' [x:S]" + ")" * n + ";\n"))
+    if replay:
+        nm = json.load(open(replay)).get("name")
+        texts = [t for t in texts if t[0] == nm]
+
+    def one(item):
+        nm, t = item
+        pth = os.path.join(d, nm + ".ebnf")
+        with open(pth, "w", newline="") as f:
+            f.write(t)
+        return run_door([cli, pth], timeout=60), run_door([cli, "--trace", pth], timeout=120)
+
+    with ThreadPoolExecutor(max_workers=vlib.NCPU) as ex:
+        outs = list(ex.map(one, texts))
+    HDR = "// This file was generated by Peginator"
+    ntr = 0
+    for (nm, t), (plain, traced) in zip(texts, outs):
+        ex_ = {"name": nm, "site": "cli-trace:" + nm.split("_")[0], "grammar": t[:2000]}
+        if door_failure(plain):
+            continue        # (C15's business: the untraced compiler does not answer)
+        fail = door_failure(traced)
+        if fail:
+            res.add(Violation("C19", "TraceInert", "peginator-cli --trace %s on %s although the untraced run answers (exit %s)" % (fail, nm, plain["code"]),
+                              None, ex_))
+            continue
+        if plain["code"] != traced["code"]:
+            res.add(Violation("C19", "TraceInert", "peginator-cli exits with %s, with --trace with %s (%s)" % (plain["code"], traced["code"], nm), None, ex_))
+            continue
+        if plain["code"] == 0:
+            i = traced["out"].find(HDR)
+            tail = traced["out"][i:] if i >= 0 else ""
+            if tail != plain["out"]:
+                res.add(Violation("C19", "TraceInert", "the code printed by peginator-cli --trace differs from the untraced output (%s)" % nm, None, ex_))
+            elif i > 0 or traced["err"]:
+                ntr += 1        # (the log goes to stderr, the code to stdout)
+        else:
+            lp, lt = plain["out"].strip().splitlines()[-6:], traced["out"].strip().splitlines()[-6:]
+            # the error report is the last block of the output in both runs
+            k = len(plain["out"].strip().splitlines())
+            if traced["out"].strip().splitlines()[-k:] != plain["out"].strip().splitlines():
+                res.add(Violation("C19", "TraceInert", "the error reported by peginator-cli --trace differs from the untraced one (%s): %r vs %r" % (
+                    nm, lt[-2:], lp[-2:]), None, ex_))
+            elif traced["err"] or len(traced["out"]) > len(plain["out"]):
+                ntr += 1
+    if not replay and ntr < len(texts) // 2:
+        raise ToolError("vacuity guard: peginator-cli --trace produced a log for only %d of %d texts" % (ntr, len(texts)))
+    res.coverage["cli_trace_runs"] = len(texts)
+    res.coverage["cli_trace_with_log"] = ntr
+    res.coverage["evaluations"] = res.coverage.get("evaluations", 0) + 2 * len(texts)
 
 
 
